@@ -224,14 +224,14 @@ def native_remove_innovation_battery(seed=0):
     return problems, sc
 
 
-def native_sequence(seed=0, linear=False, k_edit=3.0, container="set"):
+def native_sequence(seed=0, linear=False, k_edit=3.0, container="set", assumptions=False):
     """STATEFUL bounded check: one filter instance with two sensors of DIFFERENT reading dimension, driven through a sequence of
     Jacobian evaluations at different points (different dt), predictions (dt of the point, 0, another dt) and alternating
     sensor updates (near and far readings).  Every result is compared with the exact oracle at ITS OWN inputs, so state kept
     between calls (caches, remembered thresholds, reused buffers) shows up.  Returns (problems, scenario)."""
     import numpy as np
 
-    sc = scenarios.Scenario(3, 1, 2, [1, 2], seed=seed, linear=linear)
+    sc = scenarios.Scenario(3, 1, 2, [1, 2], seed=seed, linear=linear, assumptions=assumptions)
     try:
         py, ekf = scenarios.build_ekf(sc, config={"innovation_filtering": k_edit}, container=container)
     except Exception as e:
